@@ -376,8 +376,7 @@ func (c *Ctx) ruleA4() {
 					opts = a
 				}
 			}
-			fl := structLitFields(opts)
-			ac := fl["AccessController"]
+			ac := c.litField(opts, "AccessController")
 			cons := fk + "→StoreConstructor#access-controller"
 			if ac != nil && (d[ac] || d[strip(ac)]) {
 				c.ok("A4", cons, call.Pos(), "the store receives the controller resolved from the manifest's access-controller address")
@@ -453,6 +452,46 @@ func (c *Ctx) ruleA4() {
 			c.bad("A4", fk+"#manifest→type", f.Pos(), "opening a database does not take the store type from the manifest stored at the address root")
 		}
 	}
+}
+
+// litField returns the value stored in field `name` of the struct literal v points to. When v
+// is the result of a repo helper that builds and returns the literal (a constructor extracted
+// by a refactoring), the field value is translated back to the caller's argument if the helper
+// just forwards one of its parameters.
+func (c *Ctx) litField(v ssa.Value, name string) ssa.Value {
+	if v == nil {
+		return nil
+	}
+	if fv, ok := structLitFields(v)[name]; ok {
+		return fv
+	}
+	call, ok := v.(*ssa.Call)
+	if !ok {
+		return nil
+	}
+	h := call.Call.StaticCallee()
+	if h == nil || h.Blocks == nil || h.Pkg == nil || !inRepo(h.Pkg.Pkg) {
+		return nil
+	}
+	var res ssa.Value
+	eachInstr(h, func(in ssa.Instruction) {
+		r, ok := in.(*ssa.Return)
+		if !ok || len(r.Results) == 0 {
+			return
+		}
+		for _, rv := range resolveSpill(r.Results[0]) {
+			if fv, ok := structLitFields(rv)[name]; ok {
+				for i, p := range h.Params {
+					if isParamValue(fv, p) && i < len(call.Call.Args) {
+						res = call.Call.Args[i]
+						return
+					}
+				}
+				res = fv
+			}
+		}
+	})
+	return res
 }
 
 // loadsFrom: v is a load of a field of the given cell.
@@ -847,26 +886,8 @@ func (c *Ctx) ruleN4(impls []*types.Named) {
 			cons := fmt.Sprintf("%s→IO.Write#complete-entry#%d", fnKey(f), k)
 			k++
 			en := nf(ent)
-			clockOK, sigOK := false, false
-			for _, ft := range factsAt(call.Block()) {
-				if ft.Y == nil && ft.Op == token.EQL {
-					if dc, ok := ft.X.(*ssa.Call); ok && methodName(dc) == "Defined" {
-						r := dc.Common().Value
-						if r != nil && nf(r) == en+".GetClock()" {
-							clockOK = true
-						}
-					}
-				}
-				if ft.Y != nil && ft.Op == token.NEQ {
-					x, y := ft.X, ft.Y
-					if isNilConst(x) {
-						x, y = y, x
-					}
-					if isNilConst(y) && nf(x) == en+".GetIdentity().Signatures" {
-						sigOK = true
-					}
-				}
-			}
+			ef := c.entryFacts(call.Block(), 0)
+			clockOK, sigOK := ef["defined("+en+")"], ef["sig("+en+")"]
 			var missing []string
 			if !clockOK {
 				missing = append(missing, "no dominating Defined() test of its clock")
